@@ -344,6 +344,15 @@ def run(check: Check):
            'degenerate block sizes are rejected and each reshaped axis of size d is multiplied by the Hadamard matrix of order d',
            nontrivial=False)
   _schedule(check, wh, wff)
+  _factor_loop(check, wh, wff)
+  for f_, ff_ in ((rot, rff), (inv, iff)):
+    for _, c in ff_.calls():
+      if (ff_.ext(c.func) or '') in ('jax.numpy.sign', 'numpy.sign') and c.args and any(
+          isinstance(y, ast.Call) and (ff_.ext(y.func) or '').startswith('jax.random.') for v in ff_.expand(c.args[0]) for y in ff_.deep_walk(v)):
+        check.ob('R-SIGNS.zero', f_, txt(c)[:70], False,
+                 'sign() of a continuous draw is 0 when the draw hits the threshold exactly: the "diagonal of signs" then has a zero entry, the '
+                 'rotation loses a coordinate and is no longer inverted by the inverse (jax.random.rademacher gives exactly -1 / +1)',
+                 node=c, exact=True)
   # no memo / cache: a rotation depends on its arguments only (shapes of an earlier tree must not leak into a later call)
   from fjsa.rules.pure import PurityAnalysis
   pa_ = PurityAnalysis(repo)
@@ -496,3 +505,34 @@ def _schedule(check: Check, wh: FuncInfo, wff: FuncFlow):
                  'or more factors the axes end up permuted: the result is not the Walsh-Hadamard transform', node=r)
     else:
       check.ob('R-SCHEDULE', wh, txt(c)[:60], False, 'tensordot moves the contracted axis to the end and nothing moves it back', node=c)
+
+
+def _factor_loop(check: Check, wh: FuncInfo, wff: FuncFlow):
+  """The reshape target is the factorisation of len(x) into blocks: while 1 < n: append(min(n, small_n)); n //= small_n. The loop stops
+  when n reaches 1 (strict comparison): a non-strict test appends a spurious factor 1 (one more einsum dimension, and the dimension-name
+  limit is hit one level early)."""
+  from fjsa.flow import lt_form
+  found = None
+  for n in wff.cfg.nodes:
+    if n.kind == 'while':
+      apps = [c for c in ast.walk(n.ast) if isinstance(c, ast.Call) and isinstance(c.func, ast.Attribute) and c.func.attr == 'append']
+      divs = [a for a in ast.walk(n.ast) if isinstance(a, ast.AugAssign) and isinstance(a.op, ast.FloorDiv)] + [
+          a for a in ast.walk(n.ast) if isinstance(a, ast.Assign) and isinstance(a.value, ast.BinOp) and isinstance(a.value.op, ast.FloorDiv)]
+      if apps and divs:
+        found = n.ast
+  if found is None:
+    check.ob('R-SCHEDULE.factors', wh, 'while 1 < n: shape.append(min(n, small_n)); n //= small_n', None, 'factorisation loop not recognised')
+    return
+  f = lt_form(found.test)
+  ok = None
+  if f is not None:
+    small, strict, big = f
+    if isinstance(small, ast.Constant) and small.value == 1:
+      ok = bool(strict)
+    elif isinstance(small, ast.Constant) and small.value == 2:
+      ok = not strict
+    elif isinstance(small, ast.Constant) and small.value == 0:
+      ok = False
+  check.ob('R-SCHEDULE.factors', wh, f'while {txt(found.test)}', ok,
+           'the factorisation of len(x) stops when the remaining length is 1: the loop test is 1 < n (2 <= n)', node=found)
+
